@@ -405,6 +405,54 @@ def run(pm, ctx):
     else:
         ctx.violation("C09-e", ku.relpath, "Tree._add_child", norm_src(incs[0]), "n_nodes is not advanced by 2 after the children ids were assigned", line=incs[0].lineno, site=site)
     expect_assign(ctx, "C09-e", ku, "Tree.__init__", init, "self.n_nodes", ["1"], "Tree.__init__: one root node", "a new tree does not start with exactly the root")
+    # depths: both children are one level below the node that was split; get_depth(node) returns the depth of that very node
+    dpt = [s_ for s_ in ast.walk(add) if (isinstance(s_, ast.AugAssign) and norm_src(s_.target) == "self.depths") or
+           (isinstance(s_, ast.Expr) and isinstance(s_.value, ast.Call) and norm_src(s_.value.func) in ("self.depths.extend",))]
+    site = "Tree._add_child: depths of the children"
+    if not dpt:
+        ctx.unrecognised("C09-e", site, "no extension of self.depths")
+    else:
+        v = dpt[0].value if isinstance(dpt[0], ast.AugAssign) else dpt[0].value.args[0]
+        elts = v.elts if isinstance(v, (ast.List, ast.Tuple)) else None
+        if isinstance(v, ast.BinOp) and isinstance(v.op, ast.Mult) and isinstance(v.left, ast.List) and len(v.left.elts) == 1 and canon_equal(v.right, "2"):
+            elts = [v.left.elts[0], v.left.elts[0]]
+        if elts is None or len(elts) != 2:
+            ctx.unrecognised("C09-e", site, norm_src(dpt[0])[:80])
+        elif all(canon_equal(e, f"self.depths[{father}] + 1") for e in elts):
+            ctx.ok("C09-e", site, "depth(father) + 1 for both")
+        else:
+            ctx.violation("C09-e", ku.relpath, "Tree._add_child", norm_src(dpt[0]), f"the children's depths are {[norm_src(e) for e in elts]}, not depth({father}) + 1 for both: "
+                          f"max_depth is then checked against a wrong depth", line=dpt[0].lineno, site=site)
+    gd = ku.func("Tree.get_depth")
+    site = "Tree.get_depth: depth of the node asked for"
+    rets = [r for r in ast.walk(gd) if isinstance(r, ast.Return) and isinstance(r.value, ast.Subscript) and norm_src(r.value.value) == "self.depths"]
+    pn = func_params(gd)[1] if len(func_params(gd)) > 1 else None
+    if not rets or pn is None:
+        ctx.unrecognised("C09-e", site, "no `return self.depths[...]`")
+    else:
+        cfgd = CFG(gd)
+        from ..match import resolve_expr
+        idx = resolve_expr(cfgd, rets[0], rets[0].value.slice)
+        okd = None
+        if isinstance(idx, ast.Name) and idx.id == pn:
+            okd = True
+        elif isinstance(idx, ast.Call) and call_name(idx) == "min" and len(idx.args) == 2:
+            inner = [a for a in idx.args if isinstance(a, ast.Call) and call_name(a) == "max"]
+            upper = [a for a in idx.args if a not in inner]
+            if inner and upper and sorted(norm_src(a) for a in inner[0].args) == sorted([pn, "0"]):
+                # min(max(node, 0), U) == node for every valid node 0..len-1  iff  U >= len - 1
+                try:
+                    d_ = to_rat(upper[0]) - to_rat(ast.parse("len(self.depths) - 1", mode="eval").body)
+                    okd = d_.d == Poly.const(1) and d_.n.is_const() and d_.n.const_value() >= 0
+                except NotScalarArithmetic:
+                    okd = None
+        if okd is True:
+            ctx.ok("C09-e", site, norm_src(idx)[:60])
+        elif okd is False:
+            ctx.violation("C09-e", ku.relpath, "Tree.get_depth", norm_src(idx)[:100], "the node index is clamped below the last node: get_depth of the newest nodes returns "
+                          "the depth of another node", line=rets[0].lineno, site=site)
+        else:
+            ctx.unrecognised("C09-e", site, f"index `{norm_src(idx)[:60]}`")
     tgt = [s_ for s_ in ast.walk(add) if isinstance(s_, ast.AugAssign) and norm_src(s_.target) == "self.target"]
     site = "Tree._add_child: targets"
     if not tgt:
@@ -517,4 +565,6 @@ def controls(pm, tier):
     mut(K, "self.children_right[father] = self.n_nodes + 1", "self.children_right[father] = self.n_nodes + 2", "C09-e", "right child id off by one")
     mut(K, "leaf2node[n_leaves] = 2 * n_leaves  # Index of the right child", "leaf2node[n_leaves] = 2 * n_leaves + 1", "C09-e", "leaf2node right off by one")
     mut(K, "X_left = X[:, self.features[node]] <= self.thresholds[node]", "X_left = X[:, self.features[node]] < self.thresholds[node]", "C09-f", "predict routes with <")
+    mut(K, "        self.depths += [self.depths[father] + 1, self.depths[father] + 1]", "        self.depths += [self.depths[father], self.depths[father] + 1]", "C09-e", "left child keeps its father's depth")
+    mut(K, "            node = min(max(node, 0), len(self.depths))", "            node = min(max(node, 0), len(self.depths) - 2)", "C09-e", "get_depth clamps the newest node away")
     return out
